@@ -159,6 +159,23 @@ def obname_objref(data: bytes) -> bool:
     return r2[0] == 'ok' and r2[1].T == spec2[0] and (r2[1].N.O, r2[1].N.C, r2[1].N.I) == spec2[1] and r2[2] == spec2[2]
 
 
+def len_helpers_at_index(data: bytes, i: int) -> bool:
+    """
+    pre: 2 <= len(data) <= 7 and 1 <= i <= 3 and i < len(data)
+    pre: PART < 0 or (len(data) - 2) * 3 + (i - 1) == PART
+    post: _
+    """
+    # the length helpers take a start index: the answer at index i is the answer for the bytes from i on (which is what decoding at i
+    # consumes: the index-0 answers are tied to the decoders in the obligations above)
+    i = mark.pick(i, 1, 3)
+    mark.hit()
+    rest = data[i:]
+    for fn in (RC.OBNAME_len, RC.IDENT_len, RC.ORIGIN_len, RC.UVARI_len):
+        if fn(data, i) != fn(rest, 0):
+            return False
+    return True
+
+
 def dtime(data: bytes) -> bool:
     """
     pre: len(data) <= 9
